@@ -5,6 +5,7 @@ go 1.23
 toolchain go1.23.5
 
 require (
+	bou.ke/monkey v1.0.2
 	github.com/bluenviron/gomavlib/v3 v3.0.0
 	pgregory.net/rapid v1.3.0
 )
